@@ -293,6 +293,9 @@ type c28Op struct {
 	Ver     int // offset to this node's protocol version
 	Variant int
 	D       time.Duration
+	// SweepFirst (clock operations): at instants where the poll ticker and the cleanup ticker
+	// fire together the cleanup sweep runs before the poll pass (default: after it)
+	SweepFirst bool
 }
 
 func (o c28Op) String() string {
@@ -306,6 +309,9 @@ func (o c28Op) String() string {
 	case "connect", "disconnect":
 		return fmt.Sprintf("%s(%s)", o.Kind, c28PeerNames[o.Peer])
 	case "clock":
+		if o.SweepFirst {
+			return "clock+" + o.D.String() + "(sweep-first)"
+		}
 		return "clock+" + o.D.String()
 	}
 	return o.Kind
@@ -313,6 +319,9 @@ func (o c28Op) String() string {
 
 func (o c28Op) class() string {
 	if o.Kind == "clock" {
+		if o.SweepFirst {
+			return "clock+" + o.D.String() + "(sweep-first)"
+		}
 		return "clock+" + o.D.String()
 	}
 	return o.Kind
@@ -325,6 +334,7 @@ func c28Alphabet(tier string) ([]c28Op, string) {
 		for _, d := range []time.Duration{10 * time.Second, 40 * time.Second} {
 			ops = append(ops, c28Op{Kind: "clock", D: d})
 		}
+		ops = append(ops, c28Op{Kind: "clock", D: 10 * time.Second, SweepFirst: true})
 		ops = append(ops, c28Op{Kind: "connect", Peer: 0}, c28Op{Kind: "disconnect", Peer: 0}, c28Op{Kind: "polltick"}, c28Op{Kind: "sweeptick"})
 		return ops, "sweep: peer P only; clock steps of one poll interval and of 40 s, connect / disconnect, a manual poll pass, a manual cleanup sweep"
 	}
@@ -333,6 +343,7 @@ func c28Alphabet(tier string) ([]c28Op, string) {
 		for _, d := range []time.Duration{11 * time.Second, 6 * time.Minute, 31 * time.Minute} {
 			ops = append(ops, c28Op{Kind: "clock", D: d})
 		}
+		ops = append(ops, c28Op{Kind: "clock", D: 6 * time.Minute, SweepFirst: true})
 		ops = append(ops, c28Op{Kind: "polltick"}, c28Op{Kind: "forcepoll"}, c28Op{Kind: "reopen"}, c28Op{Kind: "sweeptick"})
 	}
 	if tier == "thorough" {
@@ -557,6 +568,7 @@ type c28Worker struct {
 }
 
 type c28X struct {
+	sweepFirst bool // order at coincident ticks during the current clock operation
 	w         *c28Worker
 	dir, path string
 	own       uint64
@@ -673,6 +685,9 @@ func (x *c28X) advance(d time.Duration) {
 		}
 		time.Sleep(next.Sub(now))
 		synctest.Wait()
+		if both && x.sweepFirst {
+			x.releaseCleanup()
+		}
 		if both {
 			x.releasePoll()
 		}
@@ -805,7 +820,9 @@ func (x *c28X) apply(o c28Op) error {
 			delete(x.m.lastRegReq, o.Peer)
 		}
 	case "clock":
+		x.sweepFirst = o.SweepFirst
 		x.advance(o.D)
+		x.sweepFirst = false
 	case "polltick":
 		x.ps.PollAllPeers(x.ctx)
 		synctest.Wait()
@@ -964,6 +981,12 @@ func (x *c28X) apply(o c28Op) error {
 		if s.Typ != messages.MESSAGETYPE_REQUEST_POLL || s.Known || s.To < 0 {
 			continue
 		}
+		if s.Failed {
+			// the peer was not connected when this went out (e.g. a poll pass working from the record
+			// list it read before a sweep removed the peer): not a request to an unknown CONNECTED peer
+			x.out("info:request_poll_to_disconnected_peer_without_record")
+			continue
+		}
 		requested[s.To] = true
 		switch s.Phase {
 		case "initial":
@@ -1118,6 +1141,11 @@ func c28Exec(t *testing.T, w *c28Worker, seq []c28Op) (res c28Res) {
 			return
 		}
 		defer func() {
+			if c28DebugSends {
+				for _, s := range x.ln.sends {
+					fmt.Printf("   send t=%s to=%d type=%d phase=%s known=%v failed=%v\n", s.At.Sub(x.startAt), s.To, s.Typ, s.Phase, s.Known, s.Failed)
+				}
+			}
 			x.stop(false)
 			// leave an empty store behind
 			ps, err := x.store.GetAllPeerStates()
